@@ -6,7 +6,7 @@ from fractions import Fraction as F
 from checks import moneycheck
 from checks.moneycheck import V
 
-OPS = ['add', 'sub', 'div', 'mul', 'lt', 'le', 'gt', 'ge', 'eq', 'ne', 'convert']
+OPS = ['add', 'sub', 'div', 'mul', 'lt', 'le', 'gt', 'ge', 'eq', 'ne', 'convert', 'parse']
 
 
 def qj(x):
